@@ -117,7 +117,10 @@ def gen_step(rng, cell, oid, out, clocks, vname, thr, fault_free):
             # how the verifier supplies its slack threshold: the global flags with
             # run_auth_scripts, or per call (run_script additional_flags)
             'via': rng.choice(['global', 'global', 'additional']),
-            'gthr': rng.choice([60, 0, 1, 10 ** 6])}
+            'gthr': rng.choice([60, 0, 1, 10 ** 6]),
+            # one attempt in eight does not stamp the transaction at all: the
+            # execution timestamp is then the validator's own clock
+            'default_t': rng.chance(1, 8)}
     if not fault_free:
         r = rng.below(10)
         if r == 0:
@@ -367,6 +370,7 @@ def execute(plan, run):
             run.probe('corrupt_' + nm)
             run.fault('corrupt_' + nm)
         sf = {k: bytes.fromhex(v) for k, v in out['sigfields'].items()}
+        cache_in = dict(sf) if step.get('default_t') else {**sf, 'timestamp': step['t']}
         CLOCK.latency_us = kn['latency_us']
         CLOCK.begin_call(step['validator'], step['faults'])
         try:
@@ -375,7 +379,7 @@ def execute(plan, run):
                 # ... while the process-wide default says something else
                 F.flags['ts_threshold'] = step.get('gthr', 60)
                 try:
-                    _, stk, _ = F.run_script(w.bytes + lock.bytes, {**sf, 'timestamp': step['t']},
+                    _, stk, _ = F.run_script(w.bytes + lock.bytes, cache_in,
                                              additional_flags={'ts_threshold': step['thr']})
                     r = stk.list() == [b'\xff']
                 except LIB_ERRORS:
@@ -383,13 +387,16 @@ def execute(plan, run):
             else:
                 F.flags['ts_threshold'] = step['thr']
                 try:
-                    r = F.run_auth_scripts([w, lock], {**sf, 'timestamp': step['t']})
+                    r = F.run_auth_scripts([w, lock], cache_in)
                 except BaseException as e:      # noqa
                     run.aux_auth_raised += 1
                     r = 'raised_' + type(e).__name__
         finally:
             reads = CLOCK.end_call()
         obs = ACCEPT if r is True else REJECT if r is False else 'BAD:' + str(r)
+        if step.get('default_t'):
+            run.probe('default_timestamp')
+            step = dict(step, t=int(reads[0]) if reads else 0)
         mdl = model(out, created, keys, items, step['t'], reads, step['thr'])
         t = step['t']
         lk = out['kind']
